@@ -332,6 +332,9 @@ func c01Readers(c *core.Ctx) {
 	} else {
 		cs := genFormatCase(c, r, format, false)
 		k := cs.kit
+		if mode == gen.ModeFilter && r.Chance(1, 2) {
+			k.Filter = r.Pick("n >= 1", "not(n < 1)", "n > 0 or n = 'x'") // numeric comparison over cells that are not always numbers
+		}
 		schema = k.Schema(mode)
 		input = cs.input
 		switch r.Intn(8) {
